@@ -61,6 +61,8 @@ def replay_two_writers():
 
     scn = next(s for s in F.scenarios() if s["name"] == "wt_overwrite_hashok")
     tr = F.run_trace(scn)
+    if tr.get("harness_error") or "calls" not in tr:
+        return False, f"replay harness could not run: {str(tr.get('harness_error'))[:200]}"
     names = [c[1] for c in tr["calls"]]
     k = len(names) - 1 - names[::-1].index("os.replace")
     other = {"kind": "write_tool", "call": {"content": C17_b.OTHER_TEXT, "base_hash": scn["call"]["base_hash"]}}
